@@ -519,7 +519,7 @@ func (c *Check) listedIndex(f *Func, t *Term) (bool, string) {
 	switch {
 	case f.Name == "types.RequestContextState.Unmarshal" || f.Name == "types.RequestContextBatchState.Unmarshal":
 		return true, "enum decoder of module-written store bytes: Marshal always writes exactly one byte (sibling Marshal checked by C19.4 tables)"
-	case c.fu != nil && c.fu.BS != nil && t.Op == "idx" && t.A[0].Op == c.fu.BS.Name && t.A[1].IsAt("#0") && batchStartListNonEmpty(t.A[0]):
+	case c.fu != nil && c.fu.BS != nil && t.Op == "idx" && c.isIssuerCall(t.A[0]) && t.A[1].IsAt("#0") && batchStartListNonEmpty(t.A[0]):
 		return true, "first id of a batch issued to a non-empty literal provider list: batch-start returns one id per provider (C12.1, C18.7)"
 	case f.Name == "service.NewQuerier$lit0" || strings.HasPrefix(f.Name, "keeper.NewQuerier"):
 		return true, "legacy query path: not consensus state (queries run on a cached context)"
@@ -628,4 +628,17 @@ func (c *Check) priceNonEmpty(fs []*Func) {
 	}
 	c.req(n >= 1 && len(problems) == 0, "C20.3", unitConstruct(parser, "price-non-empty"), parser.Body.Pos(),
 		fmt.Sprintf("every success path of the pricing parser yields a non-empty Price (%d paths)", n)+condStr(len(problems) > 0, ": "+strings.Join(uniq(sortStrings(problems)), "; ")))
+}
+
+// isIssuerCall: t is a call of the batch-start function or of a function that hands its provider list on to it.
+func (c *Check) isIssuerCall(t *Term) bool {
+	if c.fu == nil || c.fu.BS == nil || t == nil {
+		return false
+	}
+	for g := range c.issuerFuncs(c.fu) {
+		if t.Op == g.Name {
+			return true
+		}
+	}
+	return false
 }
